@@ -51,8 +51,9 @@ func GenerateViews(r *lp.Rng, index int) *Design {
 			}
 			add(pnames[k], a, r.Intn(3) == 0)
 		}
-		if r.Intn(2) == 0 {
-			add("tags", &Att{Type: &Type{Array: &Att{Type: &Type{Prim: "String"}}}}, false)
+		if r.Intn(2) == 0 || index%3 == 1 {
+			// in every third design the array is required (a service may still return it nil)
+			add("tags", &Att{Type: &Type{Array: &Att{Type: &Type{Prim: "String"}}}}, index%3 == 1)
 		}
 		// nested result types: only towards higher indices (no mutual recursion), plus an optional self reference
 		nestedNames := []string{"owner", "main_part", "other"}
